@@ -12,9 +12,12 @@ package main
 //                          retryableErrs iff retryable) and of ErrorMapper (looks the twirp Msg() up in
 //                          errorStrMap) is CHECKED, anything else fails loudly.
 //   spec/rpc/error.go      WrapError / WrapErrorKV: `if chord.ErrorIsRetryable(err) { code = twirp.A } else
-//                          { code = twirp.B }` and `twirp.NewError(code, err.Error())`  ->  wrapCodes
+//                          { code = twirp.B }`  ->  wrapCodes; the message argument of the (single) call
+//                          `twirp.NewError(code, <message>)` and the value of the meta entry "kv"  ->  wrapMsg
+//                          (the parameter lists `(err error)` / `(key string, err error)` are CHECKED)
 //   chord/server_rpc.go    per handler of *Server, how the error of the local node is returned
-//                          (rpc.WrapError / rpc.WrapErrorKV / raw)  ->  handlers
+//                          (rpc.WrapError / rpc.WrapErrorKV / raw)  ->  handlers; the key argument of every
+//                          rpc.WrapErrorKV call of a handler (all calls of one handler must agree)  ->  handlerKeys
 //
 // usage: extract c14-facts <namespace> <errors.go> <rpc/error.go> <server_rpc.go>
 
@@ -180,7 +183,7 @@ func runC14Facts(args []string) {
 	}
 
 	// ---- WrapError / WrapErrorKV ----
-	type wc struct{ fn, yes, no string }
+	type wc struct{ fn, yes, no, msg, kv string }
 	var wcs []wc
 	for _, d := range rpcf.Decls {
 		fd, ok := d.(*ast.FuncDecl)
@@ -211,9 +214,53 @@ func runC14Facts(args []string) {
 			w.yes, w.no = get(is.Body), get(els)
 			return false
 		})
-		body := c14Src(fset, fd.Body)
-		if w.yes == "" || !strings.Contains(body, "twirp.NewError(code, err.Error())") {
-			fail("c14-facts: %s: code selection / NewError(code, err.Error()) not found", w.fn)
+		if w.yes == "" {
+			fail("c14-facts: %s: code selection not found", w.fn)
+		}
+		// parameters: (err error) / (key string, err error)
+		var ps []string
+		for _, f := range fd.Type.Params.List {
+			for _, nm := range f.Names {
+				ps = append(ps, nm.Name+" "+c14Src(fset, f.Type))
+			}
+		}
+		params := "(" + strings.Join(ps, ", ") + ")"
+		if want := map[string]string{"WrapError": "(err error)", "WrapErrorKV": "(key string, err error)"}[w.fn]; params != want {
+			fail("c14-facts: %s: parameters %s, expected %s", w.fn, params, want)
+		}
+		// the message put on the wire and the "kv" meta entry
+		nNew := 0
+		w.kv = "-"
+		ast.Inspect(fd.Body, func(x ast.Node) bool {
+			c, ok := x.(*ast.CallExpr)
+			if !ok {
+				return true
+			}
+			fn := c14Src(fset, c.Fun)
+			switch {
+			case fn == "twirp.NewError":
+				nNew++
+				if len(c.Args) != 2 || c14Src(fset, c.Args[0]) != "code" {
+					fail("c14-facts: %s: unexpected call %s", w.fn, c14Src(fset, c))
+				}
+				w.msg = c14Src(fset, c.Args[1])
+			case strings.HasPrefix(fn, "twirp.") && fn != "twirp.WrapError":
+				fail("c14-facts: %s: unexpected twirp constructor %s", w.fn, fn)
+			case strings.HasSuffix(fn, ".WithMeta"):
+				if len(c.Args) != 2 {
+					fail("c14-facts: %s: unexpected call %s", w.fn, c14Src(fset, c))
+				}
+				if c14Src(fset, c.Args[0]) == `"kv"` {
+					if w.kv != "-" {
+						fail("c14-facts: %s: meta entry kv set twice", w.fn)
+					}
+					w.kv = c14Src(fset, c.Args[1])
+				}
+			}
+			return true
+		})
+		if nNew != 1 {
+			fail("c14-facts: %s: %d twirp.NewError calls, expected 1", w.fn, nNew)
 		}
 		wcs = append(wcs, w)
 	}
@@ -222,7 +269,7 @@ func runC14Facts(args []string) {
 	}
 
 	// ---- handlers ----
-	type hd struct{ name, how string }
+	type hd struct{ name, how, key string }
 	var hds []hd
 	for _, d := range srv.Decls {
 		fd, ok := d.(*ast.FuncDecl)
@@ -230,7 +277,18 @@ func runC14Facts(args []string) {
 			continue
 		}
 		how := "none"
+		hkey := ""
 		ast.Inspect(fd.Body, func(x ast.Node) bool {
+			if c, ok := x.(*ast.CallExpr); ok && c14Src(fset, c.Fun) == "rpc.WrapErrorKV" {
+				if len(c.Args) != 2 || c14Src(fset, c.Args[1]) != "err" {
+					fail("c14-facts: handler %s: unexpected call %s", fd.Name.Name, c14Src(fset, c))
+				}
+				k := c14Src(fset, c.Args[0])
+				if hkey != "" && hkey != k {
+					fail("c14-facts: handler %s wraps with different keys: %s and %s", fd.Name.Name, hkey, k)
+				}
+				hkey = k
+			}
 			rs, ok := x.(*ast.ReturnStmt)
 			if !ok || len(rs.Results) != 2 {
 				return true
@@ -249,7 +307,10 @@ func runC14Facts(args []string) {
 			}
 			return true
 		})
-		hds = append(hds, hd{fd.Name.Name, how}) // the LAST error return: the one after the local node's call
+		if (how == "WrapErrorKV") != (hkey != "") {
+			fail("c14-facts: handler %s: returns through %s but wraps with key %q", fd.Name.Name, how, hkey)
+		}
+		hds = append(hds, hd{fd.Name.Name, how, hkey}) // the LAST error return: the one after the local node's call
 	}
 
 	var b strings.Builder
@@ -310,6 +371,13 @@ func runC14Facts(args []string) {
 		}
 		fmt.Fprintf(&b, "(%s, %s, %s)", c14LeanStr(w.fn), c14LeanStr(w.yes), c14LeanStr(w.no))
 	}
+	fmt.Fprintf(&b, "]\n\n/-- (function, message argument of twirp.NewError, value of the meta entry \"kv\" or \"-\") -/\ndef wrapMsg : List (String × String × String) := [")
+	for i, w := range wcs {
+		if i > 0 {
+			b.WriteString(", ")
+		}
+		fmt.Fprintf(&b, "(%s, %s, %s)", c14LeanStr(w.fn), c14LeanStr(w.msg), c14LeanStr(w.kv))
+	}
 	fmt.Fprintf(&b, "]\n\n/-- how each handler of chord.Server returns the local node's error -/\ndef handlers : List (String × String) := [\n")
 	for i, h := range hds {
 		c := ","
@@ -317,6 +385,20 @@ func runC14Facts(args []string) {
 			c = ""
 		}
 		fmt.Fprintf(&b, "  (%s, %s)%s\n", c14LeanStr(h.name), c14LeanStr(h.how), c)
+	}
+	fmt.Fprintf(&b, "]\n\n/-- the key argument of rpc.WrapErrorKV in each handler that wraps with it: a field of the request -/\ndef handlerKeys : List (String × String) := [\n")
+	var kvh []hd
+	for _, h := range hds {
+		if h.how == "WrapErrorKV" {
+			kvh = append(kvh, h)
+		}
+	}
+	for i, h := range kvh {
+		c := ","
+		if i == len(kvh)-1 {
+			c = ""
+		}
+		fmt.Fprintf(&b, "  (%s, %s)%s\n", c14LeanStr(h.name), c14LeanStr(h.key), c)
 	}
 	fmt.Fprintf(&b, "]\n\nend %s\n", ns)
 	fmt.Print(b.String())
